@@ -71,6 +71,26 @@ def _param(rng, kind, p):
             return {"tuple": [im, c]}, (imean.astype(float), float(c) * np.eye(p)), "fixed-int"
         d = rng.integers(1, 8, size=p)
         return {"tuple": [im, ND(np.diag(d).astype(np.int64))]}, (imean.astype(float), np.diag(d).astype(float)), "fixed-int"
+    if rng.random() < 0.12:
+        # single-precision and 0-d forms of the same kinds of parameters: a np.float32 scalar, a
+        # float32 array, a 0-d float64 array (all "a number" or "an array-like" for the documentation);
+        # the value is the float64 value of what was given
+        m32 = mean.astype(np.float32)
+        v32 = np.exp(rng.uniform(np.log(0.1), np.log(10), size=len(mean))).astype(np.float32)
+        form = int(rng.integers(3))
+
+        def give(a):
+            if form == 0 and len(a) == 1:
+                return {"np": "float32", "v": float(a[0])}
+            if form == 1 and len(a) == 1:
+                return {"nd": float(a[0]), "dtype": "float64"}  # 0-d array
+            return ND(a, dtype="float32")
+        if kind == "L2Cost":
+            return give(m32), m32.astype(float), "fixed-np32"
+        if kind == "GaussianVarCost":
+            return {"tuple": [give(m32), give(v32)]}, (m32.astype(float), v32.astype(float)), "fixed-np32"
+        d = np.exp(rng.uniform(np.log(0.1), np.log(10), size=p)).astype(np.float32)
+        return {"tuple": [give(m32), ND(np.diag(d), dtype="float32")]}, (m32.astype(float), np.diag(d).astype(float)), "fixed-np32"
     if kind == "L2Cost":
         if per_col:
             return ND(mean), mean, "fixed-percol"
